@@ -128,7 +128,7 @@ func buildSorted(c *ctx, m int, input keys.PublicKeys) []byte {
 	n := len(input)
 	pubs := input.Copy()
 	var script []byte
-	obs := hx.Safe(func() string {
+	obs := c.safe(func() string {
 		s, err := smartcontract.CreateMultiSigRedeemScript(m, pubs)
 		if err != nil {
 			return "err"
@@ -218,7 +218,7 @@ func cmpLines(c *ctx, ps keys.PublicKeys, pairs int) {
 	for t := 0; t < pairs && len(ps) > 0; t++ {
 		a, b := ps[r.Intn(len(ps))], ps[r.Intn(len(ps))]
 		got := a.Cmp(b)
-		c.line("pkcmp "+keyField(a)+" "+keyField(b), fmt.Sprint(got))
+		c.pureLine("pkcmp "+keyField(a)+" "+keyField(b), fmt.Sprint(got), func() string { return fmt.Sprint(a.Cmp(b)) })
 		if got != refCmp(a, b) {
 			c.fail("pubkey-cmp", "Cmp(%s, %s) = %d, X-then-Y order says %d", keyField(a), keyField(b), got, refCmp(a, b))
 		}
